@@ -6,7 +6,7 @@
                     hash and constructors
      fresh_like     how the result of a constructor, +, *, zero, copy gets its identities *)
 From Coq Require Import List PArith.
-From Hgm Require Import NumOps Agg Ops Forest Run RunId ForestFacts.
+From Hgm Require Import NumOps Xq Agg Ops Forest Run RunId Algebra ForestFacts ForestSep SepWf.
 Import ListNotations.
 
 (* every other aggregator of the pool -- content and identities -- is exactly what it was; a pure
@@ -23,7 +23,32 @@ Theorem C06_fresh_result : forall (N : num_ops) (a : agg N) nx t nx',
   (nx < nx')%positive /\ within nx nx' (ids t) /\ NoDup (ids t).
 Proof. intros N a nx t nx'. apply fresh_like_spec. Qed.
 
+(* [sep w]: every identity in use is below the allocation counter and no identity occurs twice
+   anywhere in the pool - no object and no dict/list is reachable from two positions of any one or
+   any two aggregators *)
+
+(* a result (constructor, +, *, zero, copy, pickle clone) joins the pool without sharing anything *)
+Theorem C06_result_shares_nothing : forall (N : num_ops) (w : @world N) (a : agg N),
+  sep w -> sep (fst (push w a)).
+Proof. intros N. apply push_sep. Qed.
+
+(* an in-place operation (fill, fill.numpy, +=) keeps the objects of its target and allocates the
+   sparse children it creates: still no sharing anywhere in the pool.  a' is the new content of
+   entry i; its sparse keys are pairwise distinct (true of every well-formed state: C06_wf_keys) *)
+Theorem C06_inplace_shares_nothing : forall (N : num_ops) (w : @world N) (i : nat) (a' : agg N),
+  sep w -> (i < List.length (pl w))%nat -> keys_distinct a' ->
+  let '(t', n') := extend (snd (geti w i)) a' (nxt w) in
+  sep {| nxt := n'; pl := seti (pl w) i (a', t') |}.
+Proof. intros N. apply replace_sep. Qed.
+
+Theorem C06_wf_keys : forall a : agg Xq, wf a -> keys_distinct a.
+Proof. exact wf_keys_distinct. Qed.
+
 Print Assumptions C06_frame.
 Print Assumptions C06_fresh_result.
-(* Not proved (observed by the identity correspondence on every run): that the identities kept by
-   fill / += (Forest.extend) stay pairwise distinct -- see DESIGN.md section 6 C06. *)
+Print Assumptions C06_result_shares_nothing.
+Print Assumptions C06_inplace_shares_nothing.
+Print Assumptions C06_wf_keys.
+(* Stated, not proved: that Python's heap semantics coincides with this labelled-forest semantics
+   while [sep] holds - see DESIGN.md section 3.4; the identity correspondence compares id() of every
+   object and container of the whole pool with the model after every operation. *)
